@@ -21,6 +21,7 @@ def rename(p, k):
     p = copy.deepcopy(p)
     names = {f["name"] for f in p["fns"]}
     gnames = {g["n"] for g in p.get("globs", [])}
+    inlib = {f["name"] for f in p["fns"] if f.get("file") == "lib"}
 
     def walk(x):
         if isinstance(x, dict):
@@ -33,6 +34,19 @@ def rename(p, k):
         elif isinstance(x, list):
             for v in x:
                 walk(v)
+    # a function of the imported file lib.capy is called as lib.<name> from the main file
+    for f in p["fns"]:
+        if f.get("file") != "lib":
+            def mark(x):
+                if isinstance(x, dict):
+                    if x.get("e") in ("call", "fnref") and x["f"] in inlib:
+                        x["qual"] = "lib."
+                    for v in x.values():
+                        mark(v)
+                elif isinstance(x, list):
+                    for v in x:
+                        mark(v)
+            mark(f)
     walk(p)
     for f in p["fns"]:
         f["name"] = "p%d_%s" % (k, f["name"])
@@ -89,20 +103,27 @@ def run_programs(chk, progs, tag):
     pre = c08.prelude() + capygen.PRELUDE_TYPES
     plain = [k for k, (p, f) in enumerate(progs) if not f]
     faulting = [k for k, (p, f) in enumerate(progs) if f]
-    texts = {}
+    texts, libtexts = {}, {}
     for k, (p, f) in enumerate(progs):
         q = rename(p, k)
         texts[k] = "\n".join([R().glob(g) for g in q.get("globs", [])] +
-                             [R().fn(fn) for fn in q["fns"] if not fn.get("local")])
+                             [R().fn(fn) for fn in q["fns"] if not fn.get("local") and fn.get("file") != "lib"])
+        libtexts[k] = "\n".join(R().fn(fn) for fn in q["fns"] if fn.get("file") == "lib")
+
+    def files_of(ks, main_text):
+        lib = "\n".join(libtexts[k] for k in ks if libtexts[k])
+        if not lib:
+            return {"main.capy": main_text}
+        return {"main.capy": "lib :: #import(\"lib.capy\");\n" + main_text, "lib.capy": lib + "\n"}
 
     def batch_src(ks):
         calls = "\n".join("    { s_ := p%d_main(); putchar(35); emit(^s_, 4); nl(); }" % k for k in ks)
-        return pre + "\n".join(texts[k] for k in ks) + "\nmain :: () -> i32 {\n" + calls + "\n    0\n}\n"
+        return files_of(ks, pre + "\n".join(texts[k] for k in ks) + "\nmain :: () -> i32 {\n" + calls + "\n    0\n}\n")
     obs = {}
     todo = [plain[i:i + 12] for i in range(0, len(plain), 12)]
     rnd = 0
     while todo:
-        jobs = [{"id": "b%d" % bi, "files": {"main.capy": batch_src(ks)}, "run": True, "timeout_ms": 30000}
+        jobs = [{"id": "b%d" % bi, "files": batch_src(ks), "run": True, "timeout_ms": 30000}
                 for bi, ks in enumerate(todo)]
         res = common.run_batch(jobs, chk.wd, "%s_r%d" % (tag, rnd))
         nxt = []
@@ -141,7 +162,7 @@ def run_programs(chk, progs, tag):
     jobs = []
     for k in faulting:
         src = pre + texts[k] + "\nmain :: () -> i32 { p%d_main() }\n" % k
-        jobs.append({"id": "f%d" % k, "files": {"main.capy": src}, "run": True, "timeout_ms": 30000})
+        jobs.append({"id": "f%d" % k, "files": files_of([k], src), "run": True, "timeout_ms": 30000})
     for k, r in zip(faulting, common.run_batch(jobs, chk.wd, tag + "_fault") if jobs else []):
         if r["has_errors"]:
             obs[k] = {"acc": False, "out": [], "status": -3, "end": "rejected: " + ",".join(
